@@ -185,6 +185,8 @@ def regular_polygon(h, sides=4, by='angle', chart=0, dimension=2):
         side = lambda i, j: (V[i] @ J @ V[j]) * (V[i] @ J @ V[j]) * nr[0] * nr[1]
         for k in range(1, n):
             h.eq(f"side {k} = side 0", (V[k] @ J @ V[(k + 1) % n]) ** 2 * nr[0] * nr[1], (V[0] @ J @ V[1]) ** 2 * nr[k] * nr[(k + 1) % n], validate=False)
+        cr01 = [V[0][i] * V[1][j] - V[0][j] * V[1][i] for i in range(dimension + 1) for j in range(i + 1, dimension + 1)]
+        h.holds("consecutive vertices are distinct points", _anynz(h, np.array(cr01, dtype=object if h.is_sym() else float)))
         # interior angle at vertex 0 between the edges to vertices 1 and n-1
         P = lambda k: hyperbolic.Point(V[k].copy())
         t1 = P(0).unit_tangent_towards(P(1))
